@@ -82,7 +82,7 @@ func HarnessC08Usage() {
 		}
 	}
 	s.FaultAt = zz.Choose("fault.at", 7) - 1
-	s.FaultKind = 1 + zz.Choose("fault.kind", 2)
+	s.FaultKind = 1 + zz.Choose("fault.kind", 3)
 	r := NewReconciler(&zzMgr{s: s})
 	_, err := r.Reconcile(context.Background(), reconcile.Request{NamespacedName: types.NamespacedName{Name: "usage-a"}})
 	if s.Faulted {
